@@ -42,6 +42,8 @@ def run(chk, repo):
     from .c07 import naming
     chk.rule("C07-N", "each image group is cached under its own file name (<image file name>.index), so no group is served another file's cache", 3)
     chk.attempt(naming, chk, OpenPath(repo))
+    from .c07 import serialised_last
+    chk.attempt(serialised_last, chk, OpenPath(repo), "C07-G6")
     chk.attempt(a8, chk, repo)
     chk.attempt(a9, chk, repo)
     chk.count("functions", 12)
@@ -129,10 +131,20 @@ def a2_a5(chk, repo):
     chk.require(ok, "C13-A4", where, "imagery = {group.name: group for every image group}",
                 f"imagery data is {short(data, 70)}: groups are filtered or keyed by something else than their own name", key="open:imagery-dict")
     ig = g.iter
+    alts = [ig]
     if isinstance(ig, ast.Name):
-        ig = flow.reaching_def(ig.id, ig)
-    # the source list of the map
-    verdict, why = ordered_map_over(repo, op, ig, None, "open_image", role_of=role_of)
+        alts = flow.reaching_defs(ig.id, ig) or [None]
+        ig = alts[0] if len(alts) == 1 else ig
+    # the source list of the map (every definition that may reach, when branches define it differently)
+    verdict, why = True, ""
+    for alt in alts:
+        v1, w1 = ordered_map_over(repo, op, alt, None, "open_image", role_of=role_of)
+        why = (why + "; " if why else "") + w1
+        if v1 is False:
+            verdict, why, ig = False, w1, alt
+            break
+        if v1 is None:
+            verdict = None
     if verdict is None:
         raise AnalysisError(f"{where}: image groups are built by {short(ig, 80) if ig is not None else None}: {why}; order/completeness not decided")
     chk.require(verdict, "C13-A2", where, f"every file listed as 'sar_imagery' is opened by open_image, in summary order ({why})",
@@ -198,6 +210,9 @@ def ordered_map_over(repo, fi, expr, source_txt, fname, depth=0, role_of=None):
             return any(role_of(x) == "sar_imagery" for x in ast.walk(e) if isinstance(x, (ast.Subscript, ast.Name)))
         return source_txt in norm(e).replace('"', "'")
     source_txt = source_txt or "filenames['sar_imagery']"
+    for n in ast.walk(flow.expand(expr, depth=3)):
+        if isinstance(n, ast.Call) and norm(n.func).split(".")[-1] == "as_completed":
+            return False, f"results are collected with as_completed ({short(expr, 60)}): groups appear in completion order, not in summary order"
     if isinstance(expr, ast.Call) and isinstance(expr.func, ast.Name) and expr.func.id in ("list", "tuple") and len(expr.args) == 1:
         return ordered_map_over(repo, fi, expr.args[0], source_txt, fname, depth + 1, role_of)
     if isinstance(expr, ast.Call) and isinstance(expr.func, ast.Name) and expr.func.id == "map" and len(expr.args) == 2:
